@@ -22,6 +22,12 @@ EXEMPT = [
 
 
 def run(F, R, ctx):
+    _run(F, R, ctx)
+    if "sync" in (F.meta.get("features") or []):
+        world_lock_rule(F, R)
+
+
+def _run(F, R, ctx):
     R.rule("C16.a", "every indirect call of a native primitive (fn(&[SteelVal]) -> Result<SteelVal>) in the VM's dispatch "
                     "code (steel_vm::vm, jit helpers, transducers, lazy streams) lies inside a closure passed to "
                     "SteelThread::enter_safepoint / enter_safepoint_once")
@@ -78,3 +84,76 @@ def run(F, R, ctx):
                "Synchronizer::%s does not re-check Weak::upgrade of the awaited thread's context inside its wait loop (the "
                "upgrade is missing or hoisted out of the loop, which also pins the context alive): a thread that exits while "
                "it is being waited for is waited for forever, with the heap lock held" % nm, fn.loc(), sample=True)
+
+
+LOCK_ALLOW = {
+    "SteelThread::new": "constructs the first thread of an engine: no other thread of this runtime exists yet",
+    "<Engine as Clone>::clone": "host API on the host's own thread (not a running script thread): it is not among the threads a "
+                                "stop request waits for until this registration has happened",
+}
+
+
+def world_lock_rule(F, R):
+    R.rule("C16.d", "the lock a stop-the-world coordinator holds while it waits is never waited for outside a safepoint: the "
+                    "mutex fields locked by the Synchronizer methods that contain an unbounded wait for other threads "
+                    "(enumerate_stacks, call_per_ctx, …) are derived; every other function that locks one of them does so "
+                    "inside a closure passed to SteelThread::enter_safepoint*, or is a Synchronizer method, or is allowlisted "
+                    "(no second thread can exist yet). Otherwise that thread blocks unpublished on the lock while the "
+                    "coordinator, holding it, waits for the thread to publish: deadlock")
+    # 1. world locks: Synchronizer fields read in a Synchronizer method that has a wait cycle (spin/yield/park on a loop)
+    sync_fns = [f for n, f in F.fns.items() if "{impl Synchronizer}::" in n]
+    waiters = []
+    for f in sync_fns:
+        for i, b in f.calls():
+            if re.search(r"spin_loop$|yield_now$|thread::.*park$|thread::sleep$|AtomicCell<T>\}::load$", b["callee"]) and \
+                    i in f.reachable_from(f.succ(i)):
+                waiters.append(f)
+                break
+    if not waiters:
+        raise CheckError("anchor lost: no Synchronizer method with a wait loop")
+    locks = set()
+    for f in waiters:
+        if not f.call_blocks(r"Mutex<T>\}::lock$"):
+            continue
+        for _, _, e in f.events("fld"):
+            if e[1] == "Synchronizer" and re.search(r"Mutex<", _field_ty(F, "Synchronizer", e[2]) or ""):
+                locks.add(e[2])
+    R.inst("C16.d", "world-stop locks derived", bool(locks), "no mutex field of Synchronizer is locked by a waiting coordinator "
+           "(the rule has nothing to protect: anchor changed)", sample={"locks": sorted(locks), "waiters": [f.short() for f in waiters]})
+    n = 0
+    for name, fn in sorted(F.fns.items()):
+        if not name.startswith("steel::") or "{impl Synchronizer}::" in name:
+            continue
+        touched = [e[2] for _, _, e in fn.events("fld") if e[1] == "Synchronizer" and e[2] in locks]
+        if not touched or not fn.call_blocks(r"Mutex<T>\}::(lock|try_lock)$"):
+            continue
+        n += 1
+        key = fn.short()
+        if key in LOCK_ALLOW:
+            R.inst("C16.d", "%s locks Synchronizer.%s (allowlisted)" % (key, touched[0]), True,
+                   sample={"reason": LOCK_ALLOW[key]}, nontrivial=False)
+            continue
+        ok = False
+        if fn.d["kind"] == "Closure" and fn.d.get("parent"):
+            parent = fn.d["parent"]
+            holders = [F.fns[parent]] + [f for f in F.fns.values() if f.d.get("parent") == parent]
+            for h in holders:
+                for i, b in h.calls():
+                    if re.search(r"\{impl SteelThread\}::enter_safepoint(_once)?$", b["callee"]) and \
+                            any(e[0] == "closure" and e[1] == fn.name for e in b["e"]):
+                        ok = True
+        R.inst("C16.d", "%s locks Synchronizer.%s inside a safepoint" % (key, touched[0]), ok,
+               "%s waits for the mutex Synchronizer.%s outside SteelThread::enter_safepoint: a thread that is stopping the "
+               "world (global definition / assignment, collection) holds that mutex while it waits for every thread to "
+               "publish itself at a safepoint, so this thread — blocked on the mutex, unpublished — is waited for forever" % (
+                   key, touched[0]), fn.loc(), sample=True)
+    R.floor("C16.d", "mutator-side lock sites of the world-stop lock", n, 3)
+
+
+def _field_ty(F, adt_short, field):
+    a = F.adt(adt_short)
+    for v in a["variants"]:
+        for f in v["fields"]:
+            if f["name"] == field:
+                return f["ty"]
+    return None
